@@ -49,7 +49,8 @@ Definition exec1 (c:catalog) (s:ddl) : xres :=
       else if negb (nodup_names names) then XErr
       else if negb (forallb (fun d => valid_ty (snd d)) cols) then XErr
       else if negb (forallb (fun k => mem_name k names) pk) then XErr
-      else if negb (forallb (fun f => mem_name (fst f) names && cat_has_col c (fst (snd f)) (snd (snd f))) fks) then XErr
+      else if negb (forallb (fun f => mem_name (fst f) names &&
+                                     ((Pos.eqb (fst (snd f)) t && mem_name (snd (snd f)) names) || cat_has_col c (fst (snd f)) (snd (snd f)))) fks) then XErr
       else if negb (nodup_names (map fst fks)) then XErr
       else if existsb (seq_mem c) serials then XErr
       else XOk (Cat (tabs c ++ [CT t (map (fun d => CC (fst d) (fst (stored (snd d))) (snd (stored (snd d)))) cols)
